@@ -238,6 +238,21 @@ func runC08(c *core.Ctx) {
 	c.Logf("cut at %d/%d kind=%d state=%s", pos, len(ops), kind, A.LastState())
 	c.State(fmt.Sprintf("cut-in-%s gather=%v started=%v", A.LastState(), len(A.CandSeq()) > 0, A.Conn != nil))
 
+	// the application has not been reading: the peer's selected address has sent more than the agent buffers,
+	// and datagrams keep arriving while the agent is torn down
+	if l, r, ok := A.SelectedPair(); ok && A.Conn != nil && c.T.Bias(1, 8, "receive-buffer-full") {
+		for i := 0; i < 150; i++ {
+			pl := make([]byte, 8192)
+			tag := fmt.Sprintf("\x40unread-%04d:", i)
+			for j := range pl {
+				pl[j] = tag[j%len(tag)]
+			}
+			d.S.Deliver(d.W.Inject(r, l, pl, "unread"))
+		}
+		synctest.Wait()
+		c.Fault("receive-buffer-full-at-close")
+	}
+
 	// arm socket faults on A
 	aSocks := func() []*simnet.Sock {
 		var out []*simnet.Sock
